@@ -76,11 +76,12 @@ func bigFn(fn int, child *big.Int, x *big.Int, ylen int) *big.Int {
 // Assign maps "Object.field" to a function index; missing = none.
 type Assign map[string]int
 
-// argValues: coerced argument values of a Query.arg selection (GraphQL spec, CoerceArgumentValues).
-func argValues(form, varMode int) (x *big.Int, ylen int) {
+// argValues: coerced argument values of a selection of a field with arguments (GraphQL spec,
+// CoerceArgumentValues); def is the schema default of x.
+func argValues(form, varMode int, def int64) (x *big.Int, ylen int) {
 	switch form {
 	case ArgNone:
-		return big.NewInt(7), 0 // schema default
+		return big.NewInt(def), 0 // schema default
 	case ArgLit:
 		return big.NewInt(3), 0
 	case ArgBoth:
@@ -96,7 +97,7 @@ func argValues(form, varMode int) (x *big.Int, ylen int) {
 		case VarDefault:
 			return big.NewInt(4), 0 // variable default
 		case VarAbsent:
-			return big.NewInt(7), 0 // no value, no variable default: argument default
+			return big.NewInt(def), 0 // no value, no variable default: argument default
 		case VarNull:
 			return nil, 0
 		}
@@ -178,8 +179,8 @@ func (r *refEval) objField(object string, n *Node, child *big.Int) *big.Int {
 	if fn, ok := r.as[object+"."+n.Name]; ok && fn != FnNone && n.Name != "__typename" {
 		var x *big.Int
 		ylen := 0
-		if object == "Query" && n.Name == "arg" {
-			x, ylen = argValues(n.Arg, r.op.VarMode)
+		if def, ok := argDefault[object+"."+n.Name]; ok {
+			x, ylen = argValues(n.Arg, r.op.VarMode, def)
 		}
 		v := bigFn(fn, child, x, ylen)
 		if v.Cmp(child) >= 0 {
